@@ -170,7 +170,13 @@ mod int {
 
     pub(crate) fn rem(dividend: VmInt, divisor: VmInt) -> RuntimeResult<VmInt, String> {
         if divisor != 0 {
-            RuntimeResult::Return(dividend % divisor)
+            match dividend.checked_rem(divisor) {
+                Some(x) => RuntimeResult::Return(x),
+                None => RuntimeResult::Panic(format!(
+                    "attempted to calculate remainder of {} divided by {} with overflow",
+                    dividend, divisor
+                )),
+            }
         } else {
             RuntimeResult::Panic(format!(
                 "attempted to calculate remainder of {} divided by 0",
@@ -181,7 +187,13 @@ mod int {
 
     pub(crate) fn rem_euclid(dividend: VmInt, divisor: VmInt) -> RuntimeResult<VmInt, String> {
         if divisor != 0 {
-            RuntimeResult::Return(dividend.rem_euclid(divisor))
+            match dividend.checked_rem_euclid(divisor) {
+                Some(x) => RuntimeResult::Return(x),
+                None => RuntimeResult::Panic(format!(
+                    "attempted to calculate euclidean remainder of {} divided by {} with overflow",
+                    dividend, divisor
+                )),
+            }
         } else {
             RuntimeResult::Panic(format!(
                 "attempted to calculate euclidean remainder of {} divided by 0",
